@@ -1,5 +1,6 @@
 """Generate the per-state one-step Kani harnesses for the Lexer and the TagScanner from the DSL of
 /repo's *current* tree (DESIGN §3). Called by check.py before harness discovery on every run."""
+import itertools
 import json
 import os
 import sys
@@ -49,6 +50,8 @@ COMMENT_K = {
     "comment_less_than_sign_bang_dash_state": 1,
     "comment_less_than_sign_bang_dash_dash_state": 2,
 }
+# measured (calibration 2026-09-23): with two unread bytes the inlined chain below this state needs > 14 GB
+R2_TOO_DEEP = {"attribute_name_state"}
 TEXT_STATES = ["data_state", "plaintext_state", "rcdata_state", "rawtext_state", "script_data_state", "cdata_section_state"]
 
 QUICK_LEXER = {
@@ -78,6 +81,8 @@ class Model:
         self.check_known()
         self.compute_req()
         self.compute_succ()
+        self.compute_dist()
+        self.compute_depth()
 
     def check_known(self):
         for s in self.states.values():
@@ -157,6 +162,117 @@ class Model:
                     changed = True
         self.ret, self.brk, self.emits_tag, self.eof_possible, self.seqlen = ret, brk, emits_tag, eof_possible, seqlen
 
+    def compute_dist(self):
+        """D(s) = exact value of next_pos - lexeme_start at the entry of s when every incoming edge agrees
+        (e.g. 1 right after '<' in tag_open_state, 2 after '</'), else None. Forward dataflow over the DSL."""
+        TOP, VAR = "top", "var"
+        EXCL = {"emit_text"}
+        INCL = {"emit_tag", "emit_current_token", "emit_raw_without_token"}
+        D = {n: TOP for n in self.states}
+        if "data_state" in D:
+            D["data_state"] = VAR
+
+        def meet(a, b):
+            if a == TOP:
+                return b
+            if b == TOP:
+                return a
+            return a if a == b else VAR
+
+        changed = True
+        while changed:
+            changed = False
+            for n, s in self.states.items():
+                din = D[n]
+                if din == TOP:
+                    continue
+                for lf in s["leaves"]:
+                    k = lf["pat"]["kind"]
+                    tr = lf["transition"]
+                    if tr is None or tr["kind"] == "dyn" or k in ("eof", "eoc"):
+                        if tr is not None and tr["kind"] == "dyn":
+                            for t in TEXT_STATES:
+                                if t in D and D[t] != VAR:
+                                    D[t] = VAR
+                                    changed = True
+                        if tr is None and k not in ("eof", "eoc", "seq"):
+                            # loop arm: stays in n with a different distance
+                            if D[n] != VAR:
+                                D[n] = VAR
+                                changed = True
+                        if tr is None or tr["kind"] == "dyn":
+                            continue
+                    # distance after consuming this arm's input
+                    if k == "memchr" or din == VAR:
+                        d = VAR
+                    elif k == "seq":
+                        d = din + len(lf["pat"]["seq"])
+                    else:
+                        d = din + 1
+                    for a in lf["actions"]:
+                        if a["name"] in EXCL:
+                            d = 1
+                        elif a["name"] in INCL:
+                            d = 0
+                    if tr["kind"] == "reconsume" and d != VAR:
+                        d -= 1
+                    t = tr["target"]
+                    nd = meet(D[t], d)
+                    if nd != D[t]:
+                        D[t] = nd
+                        changed = True
+        self.dist = {n: (D[n] if isinstance(D[n], int) else -1) for n in self.states}
+
+    def compute_depth(self):
+        """length of the longest chain of #[inline] transitions starting at a state (cost driver)"""
+        depth = {n: 1 for n in self.states}
+        for _ in range(len(self.states)):
+            for n, s in self.states.items():
+                d = 1
+                for lf in s["leaves"]:
+                    tr = lf["transition"]
+                    if tr and tr["kind"] == "inline":
+                        d = max(d, 1 + depth[tr["target"]])
+                depth[n] = min(d, 10)
+        self.depth = depth
+
+    def inline_arm_fn(self, n):
+        """Rust source of `fn inline_arm_<n>(c: u8) -> bool`: does byte c select an arm of state n that
+        jumps into another state with #[inline] (following the arm order of the DSL)"""
+        arms = []
+        for arm in self.states[n]["arms"]:
+            k = arm["pat"]["kind"]
+            inl = any(tr and tr["kind"] == "inline" for _, tr, _ in dsl.leaves(arm["body"]))
+            if k == "byte":
+                pat = arm["pat"]["lit"]
+            elif k == "whitespace":
+                pat = "b' ' | b'\\n' | b'\\r' | b'\\t' | b'\\x0C'"
+            elif k == "alpha":
+                pat = "b'a'..=b'z' | b'A'..=b'Z'"
+            elif k == "_":
+                pat = "_"
+            else:
+                continue
+            arms.append("        %s => %s," % (pat, "true" if inl else "false"))
+        if not any(a.lstrip().startswith("_ ") for a in arms):
+            arms.append("        _ => false,")
+        return "fn inline_arm_%s(c: u8) -> bool {\n    #[allow(unreachable_patterns)]\n    match c {\n%s\n    }\n}\n" % (n, "\n".join(arms))
+
+    def split_inline(self, n):
+        """states whose inline chain is too deep for one query are verified in two variants (DESIGN §3.5):
+        v1 = no remaining byte selects an inline arm; v2 = the chunk ends right after the first such byte"""
+        pats = {a["pat"]["kind"] for a in self.states[n]["arms"]}
+        return self.depth[n] >= 3 and not (pats & {"memchr", "seq"}) and self.states[n]["group"] == "attributes_states_group"
+
+    def nb(self, n):
+        """buffer bound for the step harness of state n: 4 bytes, more where a look-ahead sequence or the
+        distance from the lexeme start needs it, 3 where the inline chain is >= 4 states deep (quick tier)"""
+        base = 4
+        need = max(self.seqlen[n] + 1, self.dist[n] + 2 if self.dist[n] >= 0 else 0)
+        q = max(base, need)
+        t = max(base + 2, need + 1)
+        return q, t
+
     def has_gate(self, n):
         return any(c == "is_appropriate_end_tag" for lf in self.states[n]["leaves"] for c, _ in lf["conds"])
 
@@ -204,6 +320,22 @@ def gen_lexer(m, tier):
     w("            _ => (0, 0, false),")
     w("        }")
     w("    }")
+    w("    fn dist(sid: u16) -> isize {")
+    w("        match sid {")
+    for n in m.order:
+        if m.dist[n] >= 0:
+            w("            SID_%s => %d," % (n, m.dist[n]))
+    w("            _ => -1,")
+    w("        }")
+    w("    }")
+    w("    fn has_lookahead(sid: u16) -> bool {")
+    w("        match sid {")
+    for n in m.order:
+        if m.seqlen[n] > 0:
+            w("            SID_%s => true," % n)
+    w("            _ => false,")
+    w("        }")
+    w("    }")
     w("    fn is_succ(from: u16, to: u16) -> bool {")
     w("        match from {")
     for n in m.order:
@@ -219,14 +351,19 @@ def gen_lexer(m, tier):
     w("}")
     w("")
     for n in m.order:
-        nb = max(4, m.seqlen[n] + 1)
-        nb_th = max(6, m.seqlen[n] + 2)
+        nb, nb_th = m.nb(n)
         variants = [("", "false", 0)]
         if "TAG" in m.req[n]:
-            variants = [("_start", "false", 1), ("_end", "true", 0)]
+            variants = [("_start", "false", 1 if "NAMED" in m.req[n] else 0), ("_end", "true", 0)]
             if m.has_gate(n):
                 variants = [("_end", "true", 0)]
-        for suffix, end_tag, pre_attrs in variants:
+        cuts = [("", None)]
+        if m.split_inline(n):
+            cuts = [("_r0", 0), ("_r1", 1)]
+            if n not in R2_TOO_DEEP:
+                cuts.append(("_r2", 2))
+        for (suffix0, end_tag, pre_attrs), (csuf, cut) in itertools.product(variants, cuts):
+            suffix = suffix0 + csuf
             props = ["C01", "C02", "C14", "C15"]
             if "ATTR" in m.req[n] or "NAMED" in m.req[n] or n == "tag_name_state":
                 props.append("C16")
@@ -234,23 +371,28 @@ def gen_lexer(m, tier):
                 props.append("C03")
             if m.emits_tag[n]:
                 props.append("C06")
-            t = "quick" if n in QUICK_LEXER and nb <= 4 else "thorough"
+            t = "quick" if n in QUICK_LEXER and nb <= 4 and cut != 2 else "thorough"
+            props.append("STEPL")
             w("// @verif props=%s tier=%s fns=Lexer::%s note=one_step_from_arbitrary_invariant_state" % (",".join(props), t, n))
+            nbv, nbt = nb, nb_th
+            if cut is not None and end_tag == "true":
+                # an end tag under construction needs room for "</x" + a delimiter before the cursor
+                nbv, nbt = max(nb, cut + 4), max(nb_th, cut + 5)
             w("#[kani::proof]")
-            w("#[kani::unwind(%d)] // @thorough %d" % (nb + 3, nb_th + 3))
+            w("#[kani::unwind(%d)] // @thorough %d" % (nbv + 3, nbt + 3))
             w("fn step_lexer_%s%s() {" % (n, suffix))
-            w("    const NB: usize = %d; // @thorough %d" % (nb, nb_th))
-            w("    let mut st = pre_step::<T, NB>(SID_%s, %s, %d);" % (n, end_tag, pre_attrs))
+            w("    const NB: usize = %d; // @thorough %d" % (nbv, nbt))
+            w("    let mut st = pre_step::<T, NB>(SID_%s, %s, %d, %d);" % (n, end_tag, pre_attrs, -1 if cut is None else cut))
             w("    let n = st.n;")
             w("    st.l.state = <Lexer<StepSink> as StateMachine>::%s as State<StepSink>;" % n)
             w("    let r = <Lexer<StepSink> as StateMachine>::%s(&mut st.l, &mut st.ctx, &st.input[..n]);" % n)
             w("    let (out, emitted) = post_step::<T, NB>(st, r);")
-            if m.ret[n]:
+            if m.ret[n] and cut != 0:
                 w("    kani::cover!(out == OUT_OK);")
             w("    kani::cover!(out == OUT_BREAK);")
-            if m.eof_possible[n]:
+            if m.eof_possible[n] and cut in (None, 0):
                 w("    kani::cover!(out == OUT_EOF);")
-            if m.emits_tag[n]:
+            if m.emits_tag[n] and cut != 0:
                 w("    kani::cover!(out == OUT_SWITCH);")
             w("    let _ = emitted;")
             w("}")
